@@ -1244,6 +1244,37 @@ def maxprinciple_clause(vals, model, num, limiter, cfl):
     return ok
 
 
+def positivity_clause(vals, kind, flux, bc, integ, cfl, prim):
+    """re-run the failing case of the C10 bounded stand-in on the real first-order solver (6 steps)"""
+    import flowdyn.mesh as mesh, flowdyn.modeldisc as md, flowdyn.modelphy.euler as eu, flowdyn.modelphy.shallowwater as sw
+    import flowdyn.xnum as xnum, flowdyn.integration as ti, flowdyn.field as field, warnings
+    warnings.filterwarnings("ignore")
+    prim = [np.array(x, dtype=float) for x in prim]
+    n = len(prim[0])
+    msh = mesh.unimesh(ncell=n, length=1.0)
+    ok = True
+    for gam in ((1.2, 1.4, 5 / 3) if kind == "euler" else (None,)):
+        model = eu.euler1d(gamma=gam) if kind == "euler" else sw.shallowwater1d()
+        b = {"type": bc}
+        disc = md.fvm1d(model, msh, xnum.extrapol1(), numflux=flux, bcL=b, bcR=b)
+        f = field.fdata(model, msh, model.prim2cons([x.copy() for x in prim]))
+        s = getattr(ti, integ)(msh, disc)
+        for it in range(6):
+            dt = float(np.min(disc.calc_timestep(f, cfl)))
+            s.step(f, dt)
+            q = f.data
+            good = np.all(np.isfinite(q[0])) and np.all(q[0] > 0)
+            if kind == "euler":
+                pr = model.pressure(q)
+                good = good and np.all(np.isfinite(pr)) and np.all(pr > 0)
+            if not good:
+                show(kind=kind, flux=flux, bc=bc, integrator=integ, cfl=cfl, gamma=gam, step=it + 1, prim=[x.tolist() for x in prim],
+                     density_or_depth=np.asarray(q[0]).tolist())
+                ok = False
+                break
+    return ok
+
+
 def conservation2d_clause(vals, num, bx, by):
     import flowdyn.mesh2d as mesh2d, flowdyn.modeldisc as md, flowdyn.modelphy.euler as eu, flowdyn.xnum as xnum, flowdyn.field as field
     ok = True
